@@ -1,3 +1,3 @@
 INIT Init
 NEXT Next
-CONSTANT Pairs = {"found", "many", "none", "fail", "macro", "dup", "range", "wrongkind", "notalisting", "long"}
+CONSTANT Pairs = {"found", "many", "none", "fail", "macro", "dup", "range", "wrongkind", "notalisting", "long", "crowd"}
